@@ -28,6 +28,11 @@ func ExtractCharClassRanges(re *syntax.Regexp) [][2]byte {
 		return nil
 	}
 
+	// Non-greedy cc+? matches exactly one character; CharClassSearcher is always greedy.
+	if re.Flags&syntax.NonGreedy != 0 {
+		return nil
+	}
+
 	if len(re.Sub) != 1 {
 		return nil
 	}
